@@ -179,6 +179,33 @@ def rule_q3_q4(repo, col):
                "VarReindex.__getitem__: %s" % "; ".join(sorted(set(problems))), construct="def VarReindex.__getitem__", function="VarReindex.__getitem__")
 
 
+def rule_q5(repo, col):
+    """every goal grounded under an evidence (or query) label by ground_evidence / ground_queries is grounded as a root: a non-root goal is replaced by the value that evidence
+    propagation recorded for it on this target (EvalDefine.notifyResult / propagate_evidence), so on a target that was already grounded once the evidence atom collapses to TRUE"""
+    n = 0
+    for f in repo.all_functions():
+        m = f.module
+        if not m.name.startswith("problog.engine"):
+            continue
+        if True:
+            for c in walk_no_nested(f.node):
+                if not (isinstance(c, ast.Call) and isinstance(c.func, ast.Attribute) and c.func.attr == "ground" and norm(c.func.value) == "self"):
+                    continue
+                kws = {k.arg: k.value for k in c.keywords}
+                lab = kws.get("label")
+                if lab is None or "LABEL_EVIDENCE" not in norm(lab):
+                    continue
+                n += 1
+                root = kws.get("is_root")
+                ok = root is not None and isinstance(root, ast.Constant) and root.value is True
+                col.decide("Q5", m, c, ok, "evidence goal grounded with is_root=True (%s)" % norm(lab),
+                           "%s grounds an evidence goal (label %s) %s: a non-root goal is answered through propagate_evidence, i.e. replaced by the value recorded in "
+                           "target.lookup_evidence - when the same target is grounded a second time the evidence atom is replaced by its own propagated value (TRUE) and the condition is "
+                           "silently lost, so the answer depends on what was grounded before" % (f.qualname, norm(lab), "without is_root" if root is None else "with is_root=%s" % norm(root)),
+                           construct="%s: self.ground(label=%s) is_root" % (f.qualname, norm(lab)), function=f.qualname)
+    col.floor("Q5.evidence_ground_sites", n, 5)
+
+
 def run(repo, col):
     col.rule("Q1", "DefineCache is created on the target by execute/execute_init only")
     col.rule("Q2", "every _cache access goes through the target")
@@ -186,3 +213,5 @@ def run(repo, col):
     col.rule("Q4", "variant keys: one VarReindex per goal; writer/reader key agreement")
     rule_q1_q2(repo, col)
     rule_q3_q4(repo, col)
+    col.rule("Q5", "evidence goals are grounded as roots")
+    rule_q5(repo, col)
